@@ -117,7 +117,7 @@ ALL_FIELDS = ["out", "val", "errs", "cnt", "maxfail", "gs", "trace"]
 # ------------------------------------------------------------------ C01
 @prop("C01", replay_known=replay_runtime_known)
 def c01(ctx, rep):
-    run_corr(ctx, rep, [("c01", 500, 12000), ("class", 150, 3000)], fields=["out", "val", "errs"],
+    run_corr(ctx, rep, [("c01", 1500, 20000), ("class", 300, 4000), ("enum", 400, 0)], fields=["out", "val", "errs"],
              ref_fields=["out", "val"], known_quirks=known_quirks_for("C01"))
 
 # ------------------------------------------------------------------ C02
@@ -151,7 +151,7 @@ def c02(ctx, rep):
 # ------------------------------------------------------------------ C05
 @prop("C05", replay_known=replay_runtime_known)
 def c05(ctx, rep):
-    run_corr(ctx, rep, [("c05", 500, 12000)], fields=["out", "val", "trace", "gs"],
+    run_corr(ctx, rep, [("c05", 1200, 20000)], fields=["out", "val", "trace", "gs", "st"],
              ref_fields=["out", "val", "trace_noctx", "gs"], known_quirks=known_quirks_for("C05"))
 
 # ------------------------------------------------------------------ C11
